@@ -300,6 +300,22 @@ class Engine(CoreMixin, ExprMixin, StmtMixin, CallMixin, BuiltinMixin):
                     fields.add(m.split('.', 1)[1] if '.' in m else m)
             return locs, fields, ghosts
         self._scan_writes(body, locs, fields, ghosts, set())
+        if ls is not None:
+            # ghost statements run with every iteration: what they assign is part of the loop's write set
+            for blocks in (ls.ghost_begin, ls.ghost_end):
+                for stmts in blocks:
+                    for st in stmts:
+                        for n in ast.walk(st):
+                            tgts = []
+                            if isinstance(n, ast.Assign):
+                                tgts = n.targets
+                            elif isinstance(n, (ast.AugAssign, ast.AnnAssign)):
+                                tgts = [n.target]
+                            for t in tgts:
+                                if isinstance(t, ast.Attribute) and isinstance(t.value, ast.Name) and t.value.id == 'ghost':
+                                    ghosts.add(t.attr)
+                                elif isinstance(t, ast.Name):
+                                    locs.add(t.id)
         return locs, fields, ghosts
 
     def _tgt(self, t, locs, fields):
